@@ -8,3 +8,8 @@ CHECKS["C02"] = (
  "Theorems over the model of srpc_async__call/srpc_iterate OUT half/sproto_out_buffer_append/sproto_pop_out_data/supla_esp_data_write: wire ++ shim ++ out buffer ++ queue = frames of the accepted calls in issue order for every history without a reported loss event; goodFrames (enc fs) = fs; request ids non-zero successor; overflow reported. Tie: constants regenerated, model and real code run on the same ops (calls, ticks, espconn result scripts), wire reassembled by a direct monitor.",
  "trusted: Lean kernel, extractor probes, harness SDK (espconn_sent result semantics: 0 = taken, -5/-7 = nothing taken); hard espconn errors and reported overflows end the compared stream (NoLoss hypothesis)",
  "DESIGN.md 4/C02")
+CHECKS["C03"] = (
+ "Lean 4 theorems over the srpc_getdata size table regenerated from the preprocessed source (translator) + kernel-decided table check + differential correspondence + sanitizer/slot-ownership monitor on the real handlers",
+ "srpc_getdata's switch is translated on every run into a Lean table (one row per case: exact sizes or VALID_SIZE parameters, allocation size); generic theorems show an accepted packet has exactly the required length and is copied inside its allocation, and `decide` checks every row and every dispatched call id of the current table. The real srpc_getdata verdict is compared with the table's for generated messages; the real handlers run under ASan/UBSan with a monitor that rejects any effect of a rejected message and any change to a slot not owned by the named channel.",
+ "trusted: Lean kernel, the regex translator over gcc -E output (fails closed on unknown shapes for dispatched ids), sizeof/offsetof probe, harness SDK. The handlers' index guards are NOT modelled in Lean: they are checked on the implementation only (partial: proof for size validation, exploration for handler side effects).",
+ "DESIGN.md 4/C03")
